@@ -174,6 +174,21 @@ PROPS = {
         assumptions=["byte equality is between artefacts of the same build of the crate"],
         floors=(20_000, 1_500, 250_000, 20_000),
     ),
+    "C10": simple(
+        level="fault_enumeration",
+        rule="fault = one hostile byte string applied to an engine with known prior state (rules, tag, resources). For each of 6 (thorough 40) "
+             "small valid buffers (0.5-1 KB; every rule shape; tagged / optimised / debug variants): ALL prefixes, ALL single-bit flips, 18 "
+             "marker substitutions (nil, empty/oversized fixarray/fixmap, array16/32, map16/32, str8/16/32, bin32, ext, 0xff, ...) and +-1 at "
+             "every structural offset found by an independent msgpack walker, random multi-byte splices/duplications/deletions/truncations, plus "
+             "arbitrary strings: empty, magic only, magic + each of 256 version bytes, gzip header, declared-length bombs, random bytes with a "
+             "valid header. Per fault: deserialize under catch_unwind with the allocation monitor armed (peak growth and any single request "
+             "<= 16 MiB + 256 x len, larger requests fail); Err => serialized bytes and query battery equal the pre-call values; Ok => network/"
+             "cosmetic/class-id battery, tag switches and serialize_raw run without panicking. non-trivial = buffer differs from the valid one "
+             "and passes the header check (decoder entered); distinct = hash of the byte string.",
+        assumptions=["totality is judged with debug assertions and overflow checks on",
+                     "process aborts (allocation failure, stack overflow) are detected by the driver from the shard journal and replayed twice"],
+        floors=(60_000, 50_000, 500_000, 400_000),
+    ),
 }
 
 # ---------------------------------------------------------------------------------------------
@@ -255,6 +270,15 @@ MANIFEST_TEXT = {
         "note": "Hash-seed diversity comes from std's per-process/per-map RandomState; digest is a 128-bit non-cryptographic hash computed by the harness.",
         "technique": "runtime monitoring: determinism / fixpoint checks over serialized outputs across processes",
         "design_ref": "DESIGN.md §4.9",
+    },
+    "C10": {
+        "text": "Runtime fault enumeration against the real loader: every prefix, every single-bit flip and every structural-marker substitution of "
+                "several small valid buffers, plus random corruptions and all header variants, each applied to an engine with known prior state "
+                "under a panic catcher and an allocation monitor; rejected loads must leave bytes and answers untouched, accepted loads must "
+                "answer a battery and re-serialize without panicking. Thorough re-runs a stratified sample under AddressSanitizer.",
+        "note": "Enumeration is exhaustive for prefixes and bit flips of the listed buffers only; other buffers are not covered. A clean ASan run is not memory safety.",
+        "technique": "runtime monitoring: exhaustive single-fault injection + panic/allocation monitors + state-atomicity oracle; ASan sample",
+        "design_ref": "DESIGN.md §4.10",
     },
 }
 
